@@ -478,7 +478,18 @@ func genParserInput(t *rapid.T, ep string) ParserInput {
 			v = mutateBytes(t, v, ":,|()[]<>!${} \t\n-~+.;=#\"'\\%&*?@^_`/\r\x00", 3)
 		}
 		if rapid.IntRange(0, 3).Draw(t, "trunc") == 0 && len(v) > 0 {
-			v = v[:rapid.IntRange(0, len(v)).Draw(t, "cut")]
+			cut := rapid.IntRange(0, len(v)).Draw(t, "cut")
+			if rapid.Bool().Draw(t, "cutAtJoint") {
+				// at a joint of the grammar: right behind (or in front of) the punctuation character
+				// that follows the drawn position - the input ends in "Mon," or "(>=" or "urgency="
+				if k := strings.IndexAny(v[cut:], ",;:()<>[]{}=|-$!"); k >= 0 {
+					cut += k + rapid.IntRange(0, 1).Draw(t, "cutBehind")
+				}
+			}
+			v = v[:cut]
+			if rapid.IntRange(0, 2).Draw(t, "cutNL") == 0 {
+				v += "\n"
+			}
 		}
 		return ParserInput{EP: ep, Input: []byte(v), Src: "mutated"}
 	}
@@ -486,7 +497,7 @@ func genParserInput(t *rapid.T, ep string) ParserInput {
 
 var specC18Total = Register(&Spec[ParserInput]{
 	Prop: "C18", Name: "total",
-	Rule:  "for each of 13 parser entry points (version.Parse; dependency.Parse / ParseArch / ParseArchitectures; ParagraphReader.All; ParseDsc, ParseChanges, ParseControl, ParseBinaryIndex, ParseSourceIndex, Unmarshal(&deb.Control); changelog.Parse / ParseOne) inputs from that parser's own grammar generator (4/20), line- and byte-level mutations (delete, duplicate, join, swap lines; one field repeated under lower- and upper-case spellings of its name; one field's value replaced by nothing, blanks, or one to three empty-line markers) and truncations of them (14/22), one or two words of a valid input replaced by / glued to a soup of 1..3 tokens of the formats' own punctuation, or a valid input inside a clearsign frame in the shapes and half-shapes such frames come in (2/22), raw bytes, or a valid input with a line-start marker ('#', '-', '/*', '$Id$', blank, '.', NUL ...) put in front of, behind or inside it with and without a line end (1/21), a valid input - or the format's smallest unit, 1000 times and more - repeated up to 64 KiB, in half of the cases with two to four copies damaged in different ways (1/22), and inputs whose total length or last-line length is exactly 4096*k-1, 4096*k or 4096*k+1 with and without a final newline (1/21). Oracle: the call returns within 60 s without panicking; when it returns an error no pointer/slice/map result is non-nil and non-empty and a struct result (version.Parse) is the zero value; a second call - made after 0..2 other generated inputs (often failing ones) went through the same entry point - gives a deeply equal value, the same error-ness and the same error text (big inputs: four more calls). Non-trivial: grammar-derived input (valid, mutated or big); distinct by (entry point, bytes).",
+	Rule:  "for each of 13 parser entry points (version.Parse; dependency.Parse / ParseArch / ParseArchitectures; ParagraphReader.All; ParseDsc, ParseChanges, ParseControl, ParseBinaryIndex, ParseSourceIndex, Unmarshal(&deb.Control); changelog.Parse / ParseOne) inputs from that parser's own grammar generator (4/20), line- and byte-level mutations (delete, duplicate, join, swap lines; one field repeated under lower- and upper-case spellings of its name; one field's value replaced by nothing, blanks, or one to three empty-line markers) and truncations of them - at any byte, or right in front of / behind a punctuation character, with and without a line end put behind the cut - (14/22), one or two words of a valid input replaced by / glued to a soup of 1..3 tokens of the formats' own punctuation, or a valid input inside a clearsign frame in the shapes and half-shapes such frames come in (2/22), raw bytes, or a valid input with a line-start marker ('#', '-', '/*', '$Id$', blank, '.', NUL ...) put in front of, behind or inside it with and without a line end (1/21), a valid input - or the format's smallest unit, 1000 times and more - repeated up to 64 KiB, in half of the cases with two to four copies damaged in different ways (1/22), and inputs whose total length or last-line length is exactly 4096*k-1, 4096*k or 4096*k+1 with and without a final newline (1/21). Oracle: the call returns within 60 s without panicking; when it returns an error no pointer/slice/map result is non-nil and non-empty and a struct result (version.Parse) is the zero value; a second call - made after 0..2 other generated inputs (often failing ones) went through the same entry point - gives a deeply equal value, the same error-ness and the same error text (big inputs: four more calls). Non-trivial: grammar-derived input (valid, mutated or big); distinct by (entry point, bytes).",
 	Check: checkParserInput,
 })
 
